@@ -50,6 +50,13 @@ def _process_case(args):
     import registry
     fam = registry.FAMILIES[fam_name]
     out = dict(trace=None)
+    # generic history: other cases of the same family evaluated first in this (fresh) process; only what they may leave
+    # behind in the implementation matters, their results are dropped
+    for prior in (c.get('history_cases') or []) if isinstance(c, dict) else []:
+        try:
+            fam.impl_obs(fam.undescribe(json.loads(json.dumps(prior))))
+        except Exception:
+            pass
     try:
         out['ml'] = fam.model_line(c)
     except Exception as e:
@@ -83,6 +90,18 @@ def run_family(fam, prop_id, tier, known, stats):
         cases.append(c)
     n_corpus = len(cases)
     cases.extend(fam.cases(tier, rng, prop_id))
+    # every family also gets "histories": a case re-evaluated after two or three other cases of the family in one fresh
+    # process (module-level caches, shared tables, reused buffers); the case carries its priors, so a replay reproduces
+    if getattr(fam, 'generic_histories', True) and len(cases) > n_corpus + 3:
+        hr = lib.rng_for(fam.name + '/histories')
+        pool_ = cases[n_corpus:]
+        small = [c for c in pool_ if isinstance(c, dict) and len(json.dumps(fam.describe(c), default=repr)) < 20000]
+        for _ in range(0 if len(small) < 4 else (40 if tier == 'quick' else 400)):
+            last = dict(hr.choice(small))
+            priors = [fam.describe(hr.choice(small)) for _ in range(hr.randint(1, 3))]
+            last = {k: v for k, v in last.items() if not k.startswith('_')}
+            last['history_cases'] = priors
+            cases.append(last)
     t0 = time.time()
     # implementation side, sharded over the cores (each worker is a fork: fresh implementation objects per case)
     args = [(fam.name, c) for c in cases]
@@ -91,7 +110,7 @@ def run_family(fam, prop_id, tier, known, stats):
         ctx = multiprocessing.get_context('fork')
         # cases that carry a history are about what earlier inputs leave behind IN THE PROCESS: each of them gets a
         # process of its own (forked from this one, which never runs the implementation itself)
-        fresh = [i for i, c in enumerate(cases) if isinstance(c, dict) and c.get('history')]
+        fresh = [i for i, c in enumerate(cases) if isinstance(c, dict) and (c.get('history') or c.get('history_cases'))]
         normal = [i for i in range(len(cases)) if i not in set(fresh)]
         done = [None] * len(cases)
         if normal:
@@ -280,7 +299,7 @@ def check(prop_id, tier):
         # report an input that fails ON ITS OWN in a fresh process (a failure that needs other inputs to have been
         # processed before it in the same process is reported through a case that carries its history)
         first, alone = all_fail[0], None
-        for cand in sorted(all_fail, key=lambda e: 0 if isinstance(e['case'], dict) and e['case'].get('history') else 1)[:25]:
+        for cand in sorted(all_fail, key=lambda e: 0 if isinstance(e['case'], dict) and (e['case'].get('history') or e['case'].get('history_cases')) else 1)[:25]:
             tmp = os.path.join(lib.WORK, 'repro-%s-%d.json' % (prop_id, os.getpid()))
             try:
                 with open(tmp, 'w') as f:
@@ -378,6 +397,11 @@ def replay(path):
     import registry
     fam = registry.FAMILIES[fam_name]
     c = fam.undescribe(r['case'])
+    for prior in (c.get('history_cases') or []) if isinstance(c, dict) else []:
+        try:
+            fam.impl_obs(fam.undescribe(json.loads(json.dumps(prior))))
+        except Exception:
+            pass
     obs = fam.impl_obs(c)
     print('observed now : %s' % obs[:4000])
     fails = fam.oracle(c, obs)
